@@ -1248,7 +1248,13 @@ int main(int argc, char **argv) {
   }
   for (Function &F : *M) {
     if (F.isIntrinsic()) continue;
+    // libc string functions left external (CBMC's built-in library models them): in the gcc build of the generated C (translation validation,
+    // V_NATIVE) <string.h> already declares them with their real prototypes -- our u8*/u64 prototype would be a conflicting declaration
+    static const char *libcstr[] = {"memcmp", "strlen", "strcmp", "strncmp", "memchr", "strchr"};
+    bool lc = false; if (F.isDeclaration()) for (const char *n : libcstr) if (F.getName() == n) lc = true;
+    if (lc) P << "#ifndef V_NATIVE\n";
     P << FnEmitter::fproto(F, false) << ";\n";
+    if (lc) P << "#endif\n";
   }
   for (Function &F : *M) {
     if (F.isDeclaration() || skip.count(F.getName().str())) continue;
